@@ -316,6 +316,15 @@ void snoopy_configuration_dtor ()
         CFG->syslog_ident_format_malloced = SNOOPY_FALSE;                 /* Set this to false         - REQUIRED (see above) */
         CFG->syslog_ident_format          = SNOOPY_SYSLOG_IDENT_FORMAT;   /* Set this to default value - REQUIRED (see above) */
     }
+
+
+    /*
+     * Reset everything else (booleans, syslog facility/level, length limits) too
+     *
+     * In non-thread-safe builds this struct is reused by the next call, whose
+     * config file may be different, absent or unreadable.
+     */
+    snoopy_configuration_setDefaults(CFG);
 }
 
 
